@@ -439,6 +439,10 @@ def emit(seed, tier, with_numpy=False):
                 if drv == "jacobian":
                     nreg = n + len(ops)
                     job["rets"] = sorted({nreg - 1, rng.below(nreg), rng.below(nreg)})
+                    # one callable in four hands its results back in a tuple: the bindings document "must return a
+                    # list", so a TypeError is accepted; a value must be the Rust jacobian
+                    if rng.below(4) == 0:
+                        job["ret_tuple"] = True
                 if drv == "third_partial_derivative_vec":
                     job["ijk"] = [rng.below(n), rng.below(n), rng.below(n)]
                     if n <= 4:  # every pattern of coinciding indices, explicitly
@@ -654,7 +658,7 @@ def call_python_driver(nd, job, seen):
         seen["reprs"] = [repr(r) for r in regs]
         seen["getters"] = [getter_view(r) for r in regs]
         if drv == "jacobian":
-            return [regs[i] for i in job["rets"]]
+            return tuple(regs[i] for i in job["rets"]) if job.get("ret_tuple") else [regs[i] for i in job["rets"]]
         return regs[-1]
 
     seen["body"] = body
@@ -751,6 +755,8 @@ def run_job(nd, job, ref):
     except BaseException as e:  # noqa: BLE001 - includes pyo3's PanicException
         if isinstance(e, (SystemExit, MemoryError, KeyboardInterrupt)):
             raise
+        if job.get("ret_tuple") and isinstance(e, TypeError):
+            return None  # a tuple where the bindings document a list: refusing it is allowed
         return {"at": -1, "what": f"result of {drv}", "python_raised": f"{type(e).__name__}: {str(e)[:200]}"}
     if not same_bits(flat(res), flat_hex(ref["result"])):
         return {"at": -1, "what": f"result of {drv}", "python": [float.hex(v) for v in flat(res)], "rust": [float.hex(unbits(h)) for h in flat_hex(ref["result"])]}
